@@ -44,8 +44,12 @@ def run(cmd, cwd=None, env=None, timeout=None, check=False, input=None):
     e = dict(ENV)
     if env:
         e.update(env)
-    p = subprocess.run(cmd, cwd=cwd, env=e, stdout=subprocess.PIPE, stderr=subprocess.PIPE,
-                       timeout=timeout, input=input)
+    try:
+        p = subprocess.run(cmd, cwd=cwd, env=e, stdout=subprocess.PIPE, stderr=subprocess.PIPE,
+                           timeout=timeout or 3 * 3600, input=input)
+    except subprocess.TimeoutExpired:
+        # e.g. a derive that does not terminate while cargo expands it: never a verdict by itself
+        raise MachineryError("command did not finish within its time limit: %s" % " ".join(cmd)[:300])
     if check and p.returncode != 0:
         raise MachineryError("command failed (%d): %s\n%s\n%s" % (
             p.returncode, " ".join(cmd), p.stdout.decode(errors="replace")[-4000:],
